@@ -512,3 +512,66 @@ func Returns(fn *ssa.Function) []*ssa.Return {
 	}
 	return out
 }
+
+// PhiLeaf is one non-phi value that can flow into a phi web, with the CFG edge it arrives on.
+type PhiLeaf struct {
+	Pred *ssa.BasicBlock // predecessor block of the phi's block on which Val arrives
+	Phi  *ssa.Phi
+	Val  ssa.Value
+	Self bool // Val is a phi of the same web (value carried around a loop)
+}
+
+// PhiLeaves expands a value through its phi web. Non-phi values yield a single leaf with Pred nil.
+func PhiLeaves(v ssa.Value) []PhiLeaf {
+	var out []PhiLeaf
+	seen := map[*ssa.Phi]bool{}
+	var walk func(v ssa.Value)
+	walk = func(v ssa.Value) {
+		phi, ok := v.(*ssa.Phi)
+		if !ok {
+			out = append(out, PhiLeaf{Val: v})
+			return
+		}
+		if seen[phi] {
+			return
+		}
+		seen[phi] = true
+		for i, e := range phi.Edges {
+			pred := phi.Block().Preds[i]
+			if ep, ok := e.(*ssa.Phi); ok {
+				if seen[ep] {
+					out = append(out, PhiLeaf{Pred: pred, Phi: phi, Val: e, Self: true})
+					continue
+				}
+				// nested phi: its own leaves, but also remember the carrying edge
+				walk(ep)
+				continue
+			}
+			out = append(out, PhiLeaf{Pred: pred, Phi: phi, Val: e})
+		}
+	}
+	walk(v)
+	return out
+}
+
+// ReachableWithin: blocks reachable from start without leaving `within` and without entering `stop`.
+func ReachableWithin(start *ssa.BasicBlock, within map[*ssa.BasicBlock]bool, stop *ssa.BasicBlock) map[*ssa.BasicBlock]bool {
+	seen := map[*ssa.BasicBlock]bool{}
+	if start == stop || (within != nil && !within[start]) {
+		return seen
+	}
+	seen[start] = true
+	work := []*ssa.BasicBlock{start}
+	for len(work) > 0 {
+		b := work[len(work)-1]
+		work = work[:len(work)-1]
+		for _, s := range b.Succs {
+			if s == stop || seen[s] || (within != nil && !within[s]) {
+				continue
+			}
+			seen[s] = true
+			work = append(work, s)
+		}
+	}
+	return seen
+}
